@@ -195,6 +195,7 @@ class Program:
     def __init__(self, root: str, overlay: Optional[dict[str, str]] = None, inline: bool = True):
         self.root = os.path.abspath(root)
         self.inlined_calls: list[str] = []
+        self.transparent_helpers: set[str] = set()
         self.modules: dict[str, Module] = {}
         self.by_relpath: dict[str, Module] = {}
         overlay = overlay or {}
@@ -227,10 +228,20 @@ class Program:
 
             inl = Inliner(self).run()
             self.inlined_calls = inl.inlined_calls
+            self.transparent_helpers = set(inl.transparent)
             for m in self.modules.values():
                 m._symbols = None
             self._class_index = None
             self._subclasses = None
+
+    def in_transparent_helper(self, node) -> bool:
+        """Is `node` inside the body of a helper whose every call has been inlined (its code is analysed in the callers)?"""
+        n = node
+        while n is not None:
+            if isinstance(n, (ast.FunctionDef, ast.AsyncFunctionDef)) and qualname_of(n) in self.transparent_helpers:
+                return True
+            n = getattr(n, "_parent", None)
+        return False
 
     # -- lookup by qualified name -------------------------------------------------
     def module(self, modname: str) -> Module:
